@@ -19,6 +19,7 @@ structure FInfo where
   hasDoc : Bool := false     -- the field has a doc comment (-getset: directives are only read then)
   get : Bool := false        -- doc matches the `get` directive
   set : Bool := false        -- doc matches the `set` directive
+  jsonTag : String := ""     -- explicit `json:"…"` tag ("" = none)
   deriving Repr, DecidableEq, Inhabited
 
 inductive Tree where
@@ -39,6 +40,7 @@ structure Field where
   defv : String := ""
   isGet : Bool := false
   isSet : Bool := false
+  jsonTag : String := ""
   deriving Repr, DecidableEq, Inhabited
 
 /-- `ast.IsExported` (ASCII) -/
@@ -59,7 +61,8 @@ def noShadow : Shadow := fun _ _ => false
 def mkField (sh : Shadow) (d : Nat) (isNew : Bool) (f : FInfo) (top : Bool) : Field :=
   { name := f.name, ptype := f.ptype, depth := d, isNew := isNew,
     defv := if top then f.defv else "", isShadowed := sh d f.name,
-    isGet := top && (accessOf f).1, isSet := top && (accessOf f).2 }
+    isGet := top && (accessOf f).1, isSet := top && (accessOf f).2,
+    jsonTag := if top then f.jsonTag else "" }
 
 def mkEmbed (sh : Shadow) (d : Nat) (n ty : String) (p : Bool) : Field :=
   { name := n, ptype := ty, depth := d, isPtr := p, isEmbeded := true, isShadowed := sh d n }
